@@ -352,7 +352,9 @@ Proof.
   intros L LC SI EK. cbn [lifecycle_ok] in LC. destruct LC as [_ [ND V]].
   destruct (apply_events_status b (grouped (b_events b)) s ND) as [s1 [E1 S1]].
   { intros e He st Hst. rewrite (SI _ _ Hst). apply V. exact He. }
-  unfold apply_block. rewrite E1. cbn [bind]. eexists. split; [reflexivity|]. split.
+  unfold apply_block, apply_block_g. rewrite E1. cbn [bind].
+  rewrite (crefresh_apply_full sel_all _ _ b (celems s1) (fun e _ => row_sel_all _ _ e)).
+  eexists. split; [reflexivity|]. split.
   - intros c st. cbn [contracts]. rewrite S1. unfold stat_after.
     destruct (alookup c (contracts s)) as [st0|] eqn:L0; [|discriminate].
     intros [= <-]. cbn [cstat]. rewrite (SI _ _ L0). reflexivity.
@@ -387,7 +389,8 @@ Proof.
   destruct (iupd_revert_total b (filter (fun e => negb (idx_eqb (ie_idx e) (b_idx b))) (ielems s1))) as [ie' Eie].
   { intros e He. apply filter_In in He. destruct He as [_ Q]. apply idx_eqb_neq.
     destruct (idx_eqb (ie_idx e) (b_idx b)); [discriminate|reflexivity]. }
-  unfold revert_block. fold evs. rewrite E1. cbn [bind]. rewrite Eie. cbn [bind]. rewrite Ece. cbn [bind].
+  unfold revert_block, revert_block_g. fold evs. rewrite E1. cbn [bind]. rewrite Eie. cbn [bind].
+  rewrite (crefresh_revert_full sel_all _ _ b (celems s1) (fun e _ => row_sel_all _ _ e)). rewrite Ece. cbn [bind].
   eexists. split; [reflexivity|]. split.
   - intros c st. cbn [contracts]. rewrite S1. unfold stat_after.
     destruct (alookup c (contracts s)) as [st0|] eqn:L0; [|discriminate]. intros [= <-].
@@ -448,7 +451,7 @@ Proof.
   intros T [F V] LC. unfold chain_after in *.
   destruct (reverts_total rs s C T F) as [s1 [E1 T1]].
   destruct (applies_total bs s1 _ T1 V LC) as [s2 [E2 T2]].
-  unfold batch. destruct rs as [|r rs'] eqn:Ers; [destruct bs as [|b bs'] eqn:Ebs|].
+  unfold batch, batch_g. fold revert_block apply_block. destruct rs as [|r rs'] eqn:Ers; [destruct bs as [|b bs'] eqn:Ebs|].
   - cbn in E1, E2. injection E1 as <-. injection E2 as <-. exists s. split; [reflexivity|exact T2].
   - rewrite E1. cbn [bind]. rewrite E2. cbn [bind]. eexists. split; [reflexivity|].
     apply (tinv_ext s2); auto.
@@ -463,19 +466,27 @@ Inductive lreach : state -> list block -> Prop :=
 | lreach_add s C c : lreach s C -> ~ mentioned c C -> lreach (fst (step s (AddContract c))) C
 | lreach_batch s C rs bs s' :
     lreach s C -> wf_batch C rs bs -> lifecycle_ok (chain_after C rs bs) -> batch s rs bs = Ok s' ->
-    lreach s' (chain_after C rs bs).
+    lreach s' (chain_after C rs bs)
+(* a renewal negotiated at RPC time: the new contract is not on the chain yet *)
+| lreach_renew s C c r : lreach s C -> ~ mentioned r C -> lreach (fst (step s (Renew c r))) C.
 
 Lemma lreach_tinv s C : lreach s C -> tinv s C.
 Proof.
-  induction 1 as [|s C c R IH Hm|s C rs bs s' R IH F LC H].
+  induction 1 as [|s C c R IH Hm|s C rs bs s' R IH F LC H|s C c r R IH Hm].
   - repeat split; cbn; auto; intros; try discriminate; try contradiction. intros x [].
-  - cbn [step]. destruct (known s c) eqn:K; cbn [fst]; [exact IH|].
+  - unfold step; cbn [step_g]. destruct (known s c) eqn:K; cbn [fst]; [exact IH|].
     destruct IH as [L [LCy [EI [SI EK]]]]. repeat split; auto.
     + intros c' st. cbn [contracts]. destruct (N.eq_dec c' c) as [->|Hne].
       * rewrite alookup_aset_same. intros [= <-]. symmetry. apply cstat_unmentioned. exact Hm.
       * rewrite alookup_aset_other by exact Hne. apply SI.
     + intros x Hx. cbn [celems] in Hx. unfold known. cbn [contracts]. apply known_aset. apply EK. exact Hx.
   - destruct (batch_total s C rs bs IH F LC) as [s2 [E2 T2]]. rewrite H in E2. injection E2 as ->. exact T2.
+  - unfold step; cbn [step_g]. unfold renew. destruct (known s c && negb (known s r)) eqn:K; cbn [fst]; [|exact IH].
+    destruct IH as [L [LCy [EI [SI EK]]]]. repeat split; auto.
+    + intros c' st. cbn [contracts]. destruct (N.eq_dec c' r) as [->|Hne].
+      * rewrite alookup_aset_same. intros [= <-]. symmetry. apply cstat_unmentioned. exact Hm.
+      * rewrite alookup_aset_other by exact Hne. apply SI.
+    + intros x Hx. cbn [celems] in Hx. unfold known. cbn [contracts]. apply known_aset. apply EK. exact Hx.
 Qed.
 
 (* every well-formed, lifecycle-conforming batch succeeds: no error, no panic *)
@@ -488,8 +499,9 @@ Qed.
 (* lifecycle histories are histories: everything proved for [reach] applies *)
 Lemma lreach_reach s C : lreach s C -> exists hm, reach s C hm.
 Proof.
-  induction 1 as [|s C c R [hm IH] Hm|s C rs bs s' R [hm IH] F LC H].
+  induction 1 as [|s C c R [hm IH] Hm|s C rs bs s' R [hm IH] F LC H|s C c r R [hm IH] Hm].
   - exists 0%N. constructor.
   - exists hm. apply reach_add. exact IH.
   - exists (hmax_after hm bs). exact (reach_batch s C hm rs bs s' IH F H).
+  - exists hm. apply reach_renew. exact IH.
 Qed.
